@@ -10,7 +10,7 @@ RULE = (
     "so indexes are hash-consistent), duplicate hashes, one side None, identical sides; all option combinations the API allows "
     "(with_unchanged, hash_only, meta_only, with_renames unless meta_only, shallow, meta_cmp_key, roots).  Reference = flat "
     "key-by-key classification written from the statement + metamorphic relations (self-diff, argument swap, conservation "
-    "of keys).  non-trivial = the two sides differ; distinct = (both indexes, options)"
+    "of keys).  Histories on one index object: diff, list, edit the index in place (new keys through new intermediate directories, deletions, replaced entries), diff again.  A directory that cannot be loaded on one side with with_unknown=True: the set of keys reported as not comparable is the same in every comparison mode.  non-trivial = the two sides differ; distinct = (both indexes, options)"
 )
 ASSUMPTIONS = [
     "well-formed: entries below a key only if that key is an implicit directory or carries a directory entry (Meta.isdir)",
@@ -19,7 +19,7 @@ ASSUMPTIONS = [
     "shortcut (hash_only without with_unchanged): reported subset of the reference, every hidden key below a directory entry with equal truthy hash on both sides, and no hidden key is a file entry; hidden representational differences of sub-directory entries are counted",
 ]
 MONITORS = "multiset of (key, type) reported by diff() vs flat reference; rename pair validity and maximality; self-diff / swap / conservation relations on the implementation's own outputs"
-REQUIRED_COUNTERS = ["meta_cmp_key_projecting_to_none_diffs", "diffs", "with_renames_diffs", "renames_seen", "shortcut_diffs", "shortcut_branches_skipped", "kind_change_pairs",
+REQUIRED_COUNTERS = ["inplace_history_diffs", "inplace_adds_through_new_directories", "unknown_directory_diffs", "keys_reported_unknown", "meta_cmp_key_projecting_to_none_diffs", "diffs", "with_renames_diffs", "renames_seen", "shortcut_diffs", "shortcut_branches_skipped", "kind_change_pairs",
                      "self_diffs", "swap_relations", "one_side_none", "shallow_diffs", "roots_diffs", "changes_classified", "meta_cmp_key_diffs"]
 
 ADD, MODIFY, RENAME, DELETE, UNCHANGED = "add", "modify", "rename", "delete", "unchanged"
@@ -401,6 +401,128 @@ def run_shard(ctx):
                     if {k: mirror[t] for k, t in back.items()} != rep:
                         res.violation("swap-does-not-mirror", "diff(b, a) is not diff(a, b) with added and deleted exchanged", case=case, detail=detail)
 
-        ctx.guard(case, one)
+        def simple_check(got, FA, FB, with_unchanged, hash_only, meta_only, tag, detail):
+            """flat comparison for option sets without renames / shallow / roots / shortcut"""
+            ref = {k: classify(FA.get(k), FB.get(k), hash_only, meta_only, False) for k in set(FA) | set(FB)}
+            expected = {k: t for k, t in ref.items() if with_unchanged or t != UNCHANGED}
+            rep = {}
+            for c in got:
+                k = ch_key(c)
+                if k in rep:
+                    res.violation("key-reported-twice" + tag, f"{k} reported more than once", case=case, detail=detail)
+                    return False
+                rep[k] = c.typ
+            if rep != expected:
+                missing = sorted(k for k in expected if k not in rep)
+                extra = sorted(k for k in rep if k not in expected)
+                wrong = sorted(k for k in rep if k in expected and rep[k] != expected[k])
+                if missing:
+                    res.violation(f"key-not-reported/{expected[missing[0]]}" + tag, f"{missing[0]} should be reported as {expected[missing[0]]}", case=case, detail=detail)
+                elif extra:
+                    res.violation(f"key-reported-without-entry-or-change/{rep[extra[0]]}" + tag, f"{extra[0]} reported {rep[extra[0]]}", case=case, detail=detail)
+                else:
+                    res.violation(f"misclassified/{expected[wrong[0]]}-as-{rep[wrong[0]]}" + tag, f"{wrong[0]}", case=case, detail=detail)
+                return False
+            return True
+
+        def inplace(case=case, rng=rng):
+            """history on ONE index object: diff, edit the index in place (new keys through new intermediate directories,
+            deletions, replaced entries), diff again"""
+            base, pool = gen_base(rng)
+            fa, fb = side_from(rng, base, pool, True), side_from(rng, base, pool, True)
+            sty = lambda fm: {dk: rng.choice(["implicit", "explicit"]) for dk in {k[:i] for k in fm for i in range(1, len(k))}}  # noqa: E731
+            ia, flat_a, _sa = build_index(rng, fa, sty(fa))
+            ib, flat_b, _sb = build_index(rng, fb, sty(fb))
+            for rnd in range(rng.randrange(2, 5)):
+                with_unchanged = rng.random() < 0.5
+                hash_only = with_unchanged and rng.random() < 0.3
+                meta_only = (not hash_only) and rng.random() < 0.2
+                opts = {"with_unchanged": with_unchanged, "hash_only": hash_only, "meta_only": meta_only}
+                detail = {"old": {"/".join(k): v for k, v in flat_a.items()}, "new": {"/".join(k): v for k, v in flat_b.items()}, "opts": opts, "round": rnd}
+                res.evaluated()
+                res.count("diffs")
+                res.count("inplace_history_diffs")
+                res.nontrivial("inplace", sorted(flat_a.items(), key=repr), sorted(flat_b.items(), key=repr), rnd, sorted(opts.items()))
+                swap = rng.random() < 0.3
+                got = run_diff(ib, ia, **opts) if swap else run_diff(ia, ib, **opts)
+                if not simple_check(got, flat_b if swap else flat_a, flat_a if swap else flat_b, with_unchanged, hash_only, meta_only,
+                                    "/index-edited-in-place" if rnd else "", detail):
+                    return
+                if rng.random() < 0.5:
+                    # listings are looked at too (what a filesystem view over the index does)
+                    for dk in [()] + sorted({k[:i] for k in flat_a for i in range(1, len(k))})[:3]:
+                        try:
+                            list(ia.ls(dk, detail=rng.random() < 0.5))
+                        except KeyError:
+                            pass
+                # ---- edit `ia` in place
+                victim_side, vflat = (ia, flat_a) if rng.random() < 0.8 else (ib, flat_b)
+                file_keys = sorted(k for k, v in vflat.items() if v[1] is None or v[1][0] == "file")
+                dir_keys = [()] + sorted({k[:i] for k in file_keys for i in range(1, len(k))})
+                for _ in range(rng.randrange(1, 4)):
+                    parent = rng.choice(dir_keys)
+                    nk = (*parent, *[gen.name(rng, odd=0.1) + "-n" for _ in range(rng.randrange(1, 3))], "leaf%d" % rng.randrange(99))
+                    if any(nk[:i] in vflat and vflat[nk[:i]][1] != ("dir",) for i in range(1, len(nk) + 1)):
+                        continue
+                    h = rng.choice(pool)
+                    victim_side[nk] = DataIndexEntry(key=nk, meta=Meta(size=1), hash_info=HashInfo("md5", h))
+                    vflat[nk] = (("md5", h), ("file", 1, False, None))
+                    res.count("inplace_adds_through_new_directories")
+                for k in rng.sample(file_keys, min(len(file_keys), rng.randrange(0, 3))):
+                    if rng.random() < 0.5:
+                        del victim_side[k]
+                        del vflat[k]
+                    else:
+                        h = "%032x" % rng.getrandbits(64)
+                        victim_side[k] = DataIndexEntry(key=k, meta=Meta(size=7), hash_info=HashInfo("md5", h))
+                        vflat[k] = (("md5", h), ("file", 7, False, None))
+
+        def unknown(case=case, rng=rng):
+            """a directory that cannot be loaded on one side, with_unknown=True: which keys are reported as not comparable must not
+            depend on whether the comparison is restricted to hashes or to metadata"""
+            import os
+
+            from dvc_data.index import ObjectStorage
+
+            from .. import env
+
+            d = ctx.fresh("u")
+            odb = env.local_odb(os.path.join(d, "odb"))
+            full = DataIndex()
+            names = [gen.name(rng, odd=0.2) for _ in range(rng.randrange(1, 5))]
+            top = gen.name(rng) + "-dir"
+            for i, nm in enumerate(dict.fromkeys(names)):
+                k = (top, nm) if rng.random() < 0.7 else (top, "sub", nm)
+                full[k] = DataIndexEntry(key=k, meta=Meta(size=i + 1), hash_info=HashInfo("md5", "%032x" % rng.getrandbits(64)))
+            full[("plain",)] = DataIndexEntry(key=("plain",), meta=Meta(size=3), hash_info=HashInfo("md5", "%032x" % 7))
+            broken = DataIndex()
+            broken.storage_map.add_cache(ObjectStorage((), odb))
+            broken[(top,)] = DataIndexEntry(key=(top,), meta=Meta(isdir=True), hash_info=HashInfo("md5", "%032x.dir" % rng.getrandbits(64)))
+            broken[("plain",)] = DataIndexEntry(key=("plain",), meta=Meta(size=rng.choice([3, 4])), hash_info=HashInfo("md5", "%032x" % rng.choice([7, 8])))
+            broken_side = rng.choice(["old", "new"])
+            modes = {"default": {}, "hash_only": {"hash_only": True, "with_unchanged": True}, "meta_only": {"meta_only": True},
+                     "hash_only/shortcut": {"hash_only": True}}
+            seen = {}
+            for mname, mo in modes.items():
+                res.evaluated()
+                res.count("diffs")
+                res.count("unknown_directory_diffs")
+                a, b = (broken, full) if broken_side == "old" else (full, broken)
+                got = run_diff(a, b, with_unknown=True, **mo)
+                seen[mname] = sorted(ch_key(c) for c in got if c.typ == "unknown")
+            res.nontrivial("unknown", broken_side, sorted(k for k, _ in full.iteritems()))
+            res.count("keys_reported_unknown", len(seen["default"]))
+            if len({tuple(v) for v in seen.values()}) != 1:
+                res.violation("not-comparable-keys-depend-on-comparison-mode",
+                              f"with a directory that cannot be loaded on the {broken_side} side, the keys reported 'unknown' differ between modes: { {m: len(v) for m, v in seen.items()} }",
+                              case=case, detail={"unknown_by_mode": {m: ["/".join(k) for k in v] for m, v in seen.items()}, "broken_side": broken_side})
+            ctx.drop(d)
+
+        if case % 10 == 3:
+            ctx.guard(case, inplace)
+        elif case % 20 == 7:
+            ctx.guard(case, unknown)
+        else:
+            ctx.guard(case, one)
 
 
